@@ -9,8 +9,10 @@ package supervisor
 // After every step: projection of the tree (dn, state, ctx.Err() != nil, group), pending requests, live instances.
 import (
 	"context"
+	"encoding/json"
 	"errors"
 	"fmt"
+	"os"
 	"sort"
 	"strings"
 	"sync"
@@ -407,7 +409,7 @@ func vScenario(r *vrng, wellBehaved bool, maxSteps int, script []vStep) (steps [
 									for d, x := range after {
 										isSib := false
 										for nm := range sib {
-											if b.node.parent.dn()+"."+nm == d {
+											if nm != b.node.name && b.node.parent.dn()+"."+nm == d {
 												isSib = true
 											}
 										}
@@ -434,14 +436,6 @@ func vScenario(r *vrng, wellBehaved bool, maxSteps int, script []vStep) (steps [
 				st.Ev = "gc"
 				before := snapshot()
 				p0 := h.poolLen()
-				procCall(&st, func() { sup.processGC() })
-				if st.Out != "ok" {
-					return
-				}
-				after := snapshot()
-				// the statement: exactly the DEAD/CANCELED nodes whose whole subtree has exited, whose parent context is live and
-				// which have no such ancestor are reset (NEW, fresh context, children dropped) and scheduled again
-				want := map[string]bool{}
 				inFlight := map[string]bool{} // an instance is live, or its exit has not reached the processor yet
 				for _, in := range live {
 					inFlight[in.dn] = true
@@ -451,6 +445,14 @@ func vScenario(r *vrng, wellBehaved bool, maxSteps int, script []vStep) (steps [
 					inFlight[strings.Fields(reqString(q))[1]] = true
 				}
 				h.poolMu.Unlock()
+				procCall(&st, func() { sup.processGC() })
+				if st.Out != "ok" {
+					return
+				}
+				after := snapshot()
+				// the statement: exactly the DEAD/CANCELED nodes whose whole subtree has exited, whose parent context is live and
+				// which have no such ancestor are reset (NEW, fresh context, children dropped) and scheduled again
+				want := map[string]bool{}
 				for d, b := range before {
 					if b.state != int(nodeStateDead) && b.state != int(nodeStateCanceled) {
 						continue
@@ -540,6 +542,9 @@ func vScenario(r *vrng, wellBehaved bool, maxSteps int, script []vStep) (steps [
 						st = vStep{Ev: "return", DN: in.dn, Kind: "nil", Out: "ok"}
 						command(in, vCmd{op: "return", kind: "nil"}, &st)
 						h.waitPool(npool + 1)
+						if killed { // the processor has exited: nobody receives the died request
+							return
+						}
 						observe(&st)
 						steps = append(steps, st)
 						h.poolMu.Lock()
@@ -781,6 +786,22 @@ func TestVerifC18Det(t *testing.T) {
 	r := &vrng{s: verifSeed() ^ 0xc18a}
 	o := verifOut(t)
 	defer o.close()
+	if f := os.Getenv("VERIF_C18_SCRIPT"); f != "" { // replay of one recorded history
+		var script []vStep
+		b, err := os.ReadFile(f)
+		if err == nil {
+			err = json.Unmarshal(b, &script)
+		}
+		if err != nil {
+			t.Fatal(err)
+		}
+		steps, mon, maxLive, stop := vScenario(&vrng{s: 1}, false, 0, script)
+		if mon == nil {
+			mon = []string{}
+		}
+		o.emit(map[string]interface{}{"k": "det", "sc": -100, "script": "replay", "script_stopped": stop, "well": false, "steps": steps, "mon": mon, "maxlive": maxLive})
+		return
+	}
 	names := []string{}
 	for nm := range vScripts {
 		names = append(names, nm)
